@@ -122,6 +122,9 @@ func (database *ChainDatabase) GetStableBlock() (*types.Block, error) {
 }
 
 func (database *ChainDatabase) GetLastConfirm() *CBlock {
+	database.RW.RLock()
+	defer database.RW.RUnlock()
+
 	return database.LastConfirm
 }
 
@@ -569,6 +572,9 @@ func (database *ChainDatabase) GetConfirms(hash common.Hash) ([]types.SignData, 
 }
 
 func (database *ChainDatabase) LoadLatestBlock() (*types.Block, error) {
+	database.RW.RLock()
+	defer database.RW.RUnlock()
+
 	if database.LastConfirm.Block == nil {
 		return nil, ErrBlockNotExist
 	} else {
@@ -648,6 +654,10 @@ func (database *ChainDatabase) GetTrieDatabase() *TrieDatabase {
 }
 
 func (database *ChainDatabase) GetActDatabase(hash common.Hash) (*AccountTrieDB, error) {
+	// rpc threads get here (account reads) while the consensus thread inserts blocks
+	database.RW.RLock()
+	defer database.RW.RUnlock()
+
 	if (hash == common.Hash{}) {
 		return NewAccountTrieDB(NewEmptyDatabase(), database.Beansdb), nil
 	}
@@ -734,6 +744,9 @@ func (database *ChainDatabase) GetAllCandidates() ([]common.Address, error) {
 }
 
 func (database *ChainDatabase) CandidatesRanking(hash common.Hash, voteLogs types.ChangeLogSlice) {
+	database.RW.Lock()
+	defer database.RW.Unlock()
+
 	cItem := database.UnConfirmBlocks[hash]
 	if (cItem == nil) || (cItem.Block == nil) {
 		panic("item or item'block is nil.")
@@ -770,6 +783,9 @@ func (database *ChainDatabase) GetAssetID(id common.Hash) (common.Address, error
 }
 
 func (database *ChainDatabase) IterateUnConfirms(fn func(*types.Block)) {
+	database.RW.RLock()
+	defer database.RW.RUnlock()
+
 	database.LastConfirm.Walk(func(block *CBlock) {
 		fn(block.Block)
 	}, nil)
